@@ -37,10 +37,10 @@ def run(ctx):
     ctx.exhaustive = True
     ctx.rule = ("one case per transition of the EndianStream state graph (history of stream calls + expected bytes), each run "
                 "on StreamBuffer, File and Socket; non-trivial = history with >= 2 calls; distinct = distinct case lines (hash)")
-    ctx.replay(rep, cases, label="R/EndianStream", timeout=ctx.pick(900, 5400))
+    ctx.replay(rep, cases, label="R/EndianStream", timeout=ctx.pick(900, 5400), env={"VERIF_TMP": ctx.tmp})
     os.unlink(cases)
     rec = vlib.build_harness(lib, "c16_record", ["c16_record.cpp"])
-    files = ctx.record(rec, ctx.pick(12, 48), ctx.pick(5000, 40000), "V/EndianStream")
+    files = ctx.record(rec, ctx.pick(12, 48), ctx.pick(5000, 40000), "V/EndianStream", env={"VERIF_TMP": ctx.tmp})
     ctx.validate_traces("Trace_EndianStream", "Trace_EndianStream", files, label="V/EndianStream", timeout=ctx.pick(600, 3000))
     ctx.assumptions += [
         "exhaustive within the constants of spec/%s.cfg; beyond them only the recorded random executions apply" % cfg,
